@@ -103,7 +103,7 @@ def independent_verify(blob, sf):
     from asn1crypto import cms
     from cryptography.exceptions import InvalidSignature
     from cryptography.hazmat.primitives import hashes, serialization
-    from cryptography.hazmat.primitives.asymmetric import dsa, ec, padding, rsa
+    from cryptography.hazmat.primitives.asymmetric import dsa, ec, ed448, ed25519, padding, rsa
     ci = cms.ContentInfo.load(blob)
     sd = ci["content"]
     si = sd["signer_infos"][0]
@@ -143,6 +143,9 @@ def independent_verify(blob, sf):
         elif isinstance(key, ec.EllipticCurvePublicKey):
             key.verify(sig, signed, ec.ECDSA(H()))
             kalg = "ec"
+        elif isinstance(key, (ed25519.Ed25519PublicKey, ed448.Ed448PublicKey)):
+            key.verify(sig, signed)
+            kalg = "eddsa"
         else:
             return None, None
     except InvalidSignature:
